@@ -381,6 +381,8 @@ class FnTranslator:
             return self.expr(self.consts()[node.id], {})
         if node.id in ('True', 'False'):
             return self.num_lit(node.id == 'True')
+        if node.id in IMPORTED_CONSTS:
+            return self.expr(IMPORTED_CONSTS[node.id], {})
         raise TransError('unbound name %s at line %d' % (node.id, node.lineno))
 
     def self_path(self, node, env):
@@ -1186,12 +1188,25 @@ class FnTranslator:
     def call_translated(self, target, node, env):
         params = target.params
         bound = {}
-        for i, a in enumerate(node.args):
+        # f(x, *t) with t a fixed-length tuple (or a constant slice of one): the components become positional arguments
+        pos = []
+        for a in node.args:
             if isinstance(a, ast.Starred):
-                raise TransError('star-args in call at line %d' % node.lineno)
+                tv = self.expr(a.value, env)
+                if not (isinstance(tv.ty, tuple) and tv.ty[0] == 'tuple'):
+                    raise TransError('star-args of a non-tuple in call at line %d' % node.lineno)
+                names = self.tuple_components(tv)
+                first = True
+                for nm_, ty_ in zip(names, tv.ty[1]):
+                    code = "(let '(%s) := %s in %s)" % (', '.join(names), tv.code, nm_)
+                    pos.append(Expr(code, ty_, tv.binds if first else []))
+                    first = False
+            else:
+                pos.append(a)
+        for i, a in enumerate(pos):
             if i >= len(params):
                 raise TransError('too many positional args to %s at line %d' % (target.name, node.lineno))
-            bound[params[i][0]] = self.expr(a, env)
+            bound[params[i][0]] = a if isinstance(a, Expr) else self.expr(a, env)
         for kw in node.keywords:
             if kw.arg is None:
                 # **params: forwards rows/cols/slices (and whatever the callee names) from env
@@ -1573,6 +1588,13 @@ class FnTranslator:
                 ast.fix_missing_locations(nn)
                 inner = [nn]
             return self.if_stmt(inner[0], rest, env, k)
+        if isinstance(st.test, ast.BoolOp) and isinstance(st.test.op, ast.And) and not st.orelse \
+                and self.narrowing(st.test.values[0], env) is not None and not self.narrowing(st.test.values[0], env)[1]:
+            rest_test = st.test.values[1] if len(st.test.values) == 2 else ast.BoolOp(op=ast.And(), values=st.test.values[1:])
+            inner = ast.copy_location(ast.If(test=rest_test, body=st.body, orelse=[]), st)
+            outer = ast.copy_location(ast.If(test=st.test.values[0], body=[inner], orelse=[]), st)
+            ast.fix_missing_locations(outer)
+            return self.if_stmt(outer, rest, env, k)
         nar = self.narrowing(st.test, env)
         if nar is None:
             c = self.truthy(self.expr(st.test, env))
@@ -2218,7 +2240,22 @@ IGNORED_DECORATORS = {'staticmethod', 'property', 'classmethod',
                       'preserve_channel_dim', 'preserve_shape'}
 
 
+# integer constants that the package modules import from dicaugment.core.transforms_interface (INTER_NEAREST, ...):
+# read from that file's source on every run
+IMPORTED_CONSTS = {}
+
+
+def load_imported_consts(repo):
+    IMPORTED_CONSTS.clear()
+    tree = ast.parse(open(os.path.join(repo, 'dicaugment/core/transforms_interface.py')).read())
+    for n in tree.body:
+        if isinstance(n, ast.Assign) and len(n.targets) == 1 and isinstance(n.targets[0], ast.Name) \
+                and n.targets[0].id.startswith('INTER_') and isinstance(n.value, ast.Constant) and isinstance(n.value.value, int):
+            IMPORTED_CONSTS[n.targets[0].id] = n.value
+
+
 def translate_all(repo, modules, out_dir):
+    load_imported_consts(repo)
     """modules: list of dicts {file, coq_module, functions:[FnSpec kwargs], requires:[coq modules]}"""
     manifest = {'modules': [], 'errors': []}
     registry = {}
